@@ -14,6 +14,7 @@ import (
 	"go/constant"
 	"go/token"
 	"go/types"
+	"math/big"
 	"sort"
 	"strings"
 
@@ -111,6 +112,8 @@ type Sym struct {
 	// InlineSamePkg also inlines value-producing helpers of the crypto forks
 	// when the root function is in the same package.
 	InlineSamePkg bool
+	noInline      map[*ssa.Function]bool
+	inBufferCat   bool
 	// for closure bodies: the evaluator of the enclosing activation and the
 	// MakeClosure instruction, to resolve captured locals
 	outer   *Sym
@@ -122,7 +125,7 @@ func (p *Prog) NewSym(fn *ssa.Function) *Sym {
 }
 
 func (s *Sym) child(fn *ssa.Function) *Sym {
-	c := &Sym{prog: s.prog, fn: fn, memo: map[ssa.Value]*Term{}, ff: s.prog.Facts(fn), InlineSamePkg: s.InlineSamePkg}
+	c := &Sym{prog: s.prog, fn: fn, memo: map[ssa.Value]*Term{}, ff: s.prog.Facts(fn), InlineSamePkg: s.InlineSamePkg, noInline: s.noInline}
 	c.stack = append(append([]*ssa.Function(nil), s.stack...), fn)
 	c.params = map[*ssa.Parameter]*Term{}
 	c.free = map[*ssa.FreeVar]*Term{}
@@ -937,6 +940,22 @@ func (s *Sym) evalCall(v *ssa.Call) *Term {
 		return T("hash", "sha384", s.Of(cc.Args[0]))
 	case "(hash.Hash).Sum":
 		return s.hashSum(v)
+	case "(encoding/binary.bigEndian).AppendUint16", "(encoding/binary.bigEndian).AppendUint32", "(encoding/binary.bigEndian).AppendUint64":
+		w := map[string]string{"16": "u16", "32": "u32", "64": "u64"}[name[len(name)-2:]]
+		if len(cc.Args) == 3 {
+			base := s.Of(cc.Args[1])
+			if base.Op == "make" && len(base.Args) == 1 {
+				if ms, ok := cc.Args[1].(*ssa.MakeSlice); ok {
+					if c, ok := ms.Len.(*ssa.Const); ok && c.Int64() == 0 {
+						return catTerms(T(w, "", s.Of(cc.Args[2])))
+					}
+				}
+			}
+			if base.Op == "const" && base.Name == "nil" {
+				return catTerms(T(w, "", s.Of(cc.Args[2])))
+			}
+			return catTerms(base, T(w, "", s.Of(cc.Args[2])))
+		}
 	case "strings.Join":
 		return T("join", "", s.Of(cc.Args[0]), s.Of(cc.Args[1]))
 	case "github.com/cloudflare/pat-go/quicwire.AppendVarint", "quicwire.AppendVarint":
@@ -950,7 +969,7 @@ func (s *Sym) evalCall(v *ssa.Call) *Term {
 	}
 	// in-module callee with a body: inline its return term
 	if f := cc.StaticCallee(); f != nil && InModule(f) && f.Blocks != nil && len(s.stack) < 6 &&
-		(inlinable(f) || (s.InlineSamePkg && fnPkgPath(f) == fnPkgPath(s.stack[0]) && inlinableShape(f))) {
+		(inlinable(f) || (s.InlineSamePkg && fnPkgPath(f) == fnPkgPath(s.stack[0]) && inlinableShape(f))) && !s.noInline[f] {
 		if t := s.inline(f, v); t != nil {
 			return t
 		}
@@ -1339,7 +1358,7 @@ func (s *Sym) hashSum(v *ssa.Call) *Term {
 	ctor := s.Of(h)
 	alg := ctor.String()
 	if ctor.Op == "call" {
-		alg = ctor.Name
+		alg = hashAlgName(ctor.Name)
 	}
 	calls, side, ok := orderedCallsOn(h, v)
 	if !ok || len(side) > 0 {
@@ -1375,11 +1394,29 @@ func inlinable(f *ssa.Function) bool {
 		return false
 	}
 	switch fnPkgPath(f) {
-	case modPath + "/ecdsa", modPath + "/ed25519", modPath + "/ed25519/internal/edwards25519", modPath + "/ed25519/internal/edwards25519/field":
-		// cryptographic operations stay opaque calls in terms
+	case modPath + "/ecdsa", modPath + "/ed25519":
+		// the forks' API and the named steps of their algorithms stay opaque
+		// calls in terms; other unexported helpers (introduced by refactoring)
+		// are implementation detail and are looked through
+		if f.Object() != nil && f.Object().Exported() {
+			return false
+		}
+		if f.Signature.Recv() != nil {
+			return false
+		}
+		return !forkAnchors[f.Name()]
+	case modPath + "/ed25519/internal/edwards25519", modPath + "/ed25519/internal/edwards25519/field":
 		return false
 	}
 	return true
+}
+
+// forkAnchors: unexported functions of the ECDSA/Ed25519 forks that the rules
+// name as steps of the algorithms (they stay opaque calls in terms).
+var forkAnchors = map[string]bool{
+	"hashBlind": true, "randFieldElement": true, "sign": true, "verify": true, "signGeneric": true, "verifyGeneric": true,
+	"hashToInt": true, "fermatInverse": true, "blindKeySign": true, "signInternal": true, "signNISTEC": true, "verifyNISTEC": true,
+	"signAsm": true, "verifyAsm": true, "newPublicKey": true, "newPrivateKey": true, "newKeyFromSeed": true,
 }
 
 // isDecoder: the function reads through a cryptobyte.String; such functions
@@ -1464,6 +1501,9 @@ func (s *Sym) evalMake(v *ssa.MakeSlice) *Term {
 }
 
 func (s *Sym) bufferTerm(v ssa.Value, ln *Term) *Term {
+	if t := s.bufferCat(v); t != nil {
+		return t
+	}
 	var fillers []*Term
 	for _, r := range *v.Referrers() {
 		ci, ok := r.(ssa.CallInstruction)
@@ -1497,7 +1537,7 @@ func (s *Sym) bufferTerm(v ssa.Value, ln *Term) *Term {
 		fillers = append(fillers, &Term{Op: "fill", Name: calleeName(cc), Args: args, Site: ci})
 	}
 	if len(fillers) == 1 {
-		return T("make", "", ln, fillers[0])
+		return canonBigBytes(T("make", "", ln, fillers[0]))
 	}
 	if len(fillers) > 1 {
 		return T("make", "", ln, T("opaque", fmt.Sprintf("%d fillers of %s", len(fillers), v.Name())))
@@ -1511,7 +1551,7 @@ func fillerCallee(name string) bool {
 	switch name {
 	case "io.ReadFull", "crypto/rand.Read", "(io.Reader).Read", "(*math/big.Int).FillBytes",
 		"(*crypto/cipher.StreamReader).Read", "(crypto/cipher.Stream).XORKeyStream", "encoding/hex.Decode",
-		"encoding/binary.bigEndian.PutUint16", "encoding/binary.bigEndian.PutUint32", "encoding/binary.bigEndian.PutUint64":
+		"(encoding/binary.bigEndian).PutUint16", "(encoding/binary.bigEndian).PutUint32", "(encoding/binary.bigEndian).PutUint64":
 		return true
 	}
 	return false
@@ -1636,4 +1676,277 @@ func mkField(name string, base *Term) *Term {
 		base = mkField(base.Name, base.Args[0])
 	}
 	return T("field", name, base)
+}
+
+// hashAlgName: one canonical name per algorithm, whichever API spells it
+// (sha512.Sum384(x) and sha512.New384()/Write/Sum(nil) are the same value).
+func hashAlgName(ctor string) string {
+	switch ctor {
+	case "crypto/sha256.New":
+		return "sha256"
+	case "crypto/sha512.New384":
+		return "sha384"
+	case "crypto/sha512.New":
+		return "sha512"
+	case "crypto/sha1.New":
+		return "sha1"
+	case "crypto/sha256.New224":
+		return "sha224"
+	}
+	return ctor
+}
+
+// bufferCat: a fresh buffer assembled piecewise - copy(buf[off:], x),
+// binary.BigEndian.PutUintN(buf[off:], v), buf[off] = c - is the
+// concatenation of the pieces when their offsets are the running sums of
+// their lengths and they cover the buffer exactly (linear identities over
+// lengths, no facts needed). Returns nil when that cannot be established.
+type bufPart struct {
+	off, ln Lin
+	t       *Term
+}
+
+func (s *Sym) bufferCat(v ssa.Value) *Term {
+	if s.inBufferCat {
+		return nil
+	}
+	s.inBufferCat = true
+	defer func() { s.inBufferCat = false }()
+	rg := s.prog.rangeFor(s.fn)
+	var total Lin
+	switch x := v.(type) {
+	case *ssa.MakeSlice:
+		l, ok := rg.lin(x.Len)
+		if !ok {
+			return nil
+		}
+		total = l
+	case *ssa.Slice:
+		total = rg.lenOf(x)
+	default:
+		return nil
+	}
+	var parts []bufPart
+	type copyRec struct {
+		call    *ssa.Call
+		off, ln Lin
+	}
+	var copies []copyRec
+	bad := false
+	var visit func(view ssa.Value, off Lin, high *Lin)
+	visit = func(view ssa.Value, off Lin, high *Lin) {
+		for _, r := range *view.Referrers() {
+			switch x := r.(type) {
+			case *ssa.Slice:
+				if x.X != view {
+					continue
+				}
+				o := off
+				if x.Low != nil {
+					l, ok := rg.lin(x.Low)
+					if !ok {
+						bad = true
+						return
+					}
+					o = off.plus(l)
+				}
+				h := high
+				if x.High != nil {
+					l, ok := rg.lin(x.High)
+					if !ok {
+						bad = true
+						return
+					}
+					hh := off.plus(l)
+					h = &hh
+				}
+				visit(x, o, h)
+			case *ssa.IndexAddr:
+				if x.X != view {
+					continue
+				}
+				il, ok := rg.lin(x.Index)
+				if !ok {
+					bad = true
+					return
+				}
+				for _, u := range *x.Referrers() {
+					if st, ok := u.(*ssa.Store); ok && st.Addr == x {
+						parts = append(parts, bufPart{off.plus(il), linConst(1), T("u8", "", s.Of(st.Val))})
+					}
+				}
+			case ssa.CallInstruction:
+				cc := x.Common()
+				if b, ok := cc.Value.(*ssa.Builtin); ok {
+					if b.Name() == "copy" && cc.Args[0] == view {
+						parts = append(parts, bufPart{off, rg.lenOf(cc.Args[1]), s.Of(cc.Args[1])})
+						if cv, ok := x.(*ssa.Call); ok {
+							copies = append(copies, copyRec{cv, off, rg.lenOf(cc.Args[1])})
+						}
+					}
+					continue
+				}
+				name := calleeName(cc)
+				isArg := false
+				for _, a := range cc.Args {
+					if a == view {
+						isArg = true
+					}
+				}
+				if !isArg || !fillerCallee(name) {
+					continue
+				}
+				switch name {
+				case "(encoding/binary.bigEndian).PutUint16":
+					parts = append(parts, bufPart{off, linConst(2), T("u16", "", s.Of(cc.Args[2]))})
+				case "(encoding/binary.bigEndian).PutUint32":
+					parts = append(parts, bufPart{off, linConst(4), T("u32", "", s.Of(cc.Args[2]))})
+				case "(encoding/binary.bigEndian).PutUint64":
+					parts = append(parts, bufPart{off, linConst(8), T("u64", "", s.Of(cc.Args[2]))})
+				default:
+					// a filler of the whole view: only describable when the view's extent is known
+					end := total
+					if high != nil {
+						end = *high
+					}
+					var args []*Term
+					if cc.IsInvoke() {
+						args = append(args, s.Of(cc.Value))
+					}
+					for _, a := range cc.Args {
+						if a == view {
+							args = append(args, T("const", "dst"))
+						} else {
+							args = append(args, s.Of(a))
+						}
+					}
+					ln := end.minus(off)
+					lt := linTerm(ln)
+					if lt == nil {
+						bad = true
+						return
+					}
+					parts = append(parts, bufPart{off, ln, T("make", "", lt, &Term{Op: "fill", Name: name, Args: args, Site: x})})
+				}
+			}
+		}
+	}
+	visit(v, linConst(0), nil)
+	if bad || len(parts) == 0 {
+		return nil
+	}
+	if len(parts) == 1 {
+		switch parts[0].t.Op {
+		case "u8", "u16", "u32", "u64":
+		default:
+			return nil // one piece: the plain make(len, filler) form describes it
+		}
+	}
+	// n := copy(buf[off:], x) copies all of x when the buffer has room for it:
+	// then n == len(x) in later offsets
+	for iter := 0; iter < 4; iter++ {
+		changed := false
+		for _, cp := range copies {
+			name := rg.atom(cp.call).String()
+			_ = name
+			var an string
+			for a := range rg.atom(cp.call).c {
+				an = a
+			}
+			room := total.minus(cp.off).minus(cp.ln)
+			if !rg.nonneg(room) {
+				continue
+			}
+			for i := range parts {
+				if c, ok := parts[i].off.c[an]; ok {
+					parts[i].off = parts[i].off.add(linAtom(an), new(big.Rat).Neg(c)).add(cp.ln, c)
+					changed = true
+				}
+			}
+			for j := range copies {
+				if c, ok := copies[j].off.c[an]; ok {
+					copies[j].off = copies[j].off.add(linAtom(an), new(big.Rat).Neg(c)).add(cp.ln, c)
+					changed = true
+				}
+			}
+		}
+		if !changed {
+			break
+		}
+	}
+	eq := func(a, b Lin) bool { d := a.minus(b); return len(d.c) == 0 && d.k.Sign() == 0 }
+	cur := linConst(0)
+	var out []*Term
+	used := make([]bool, len(parts))
+	for n := 0; n < len(parts); n++ {
+		found := -1
+		for i, pt := range parts {
+			if !used[i] && eq(pt.off, cur) {
+				if found >= 0 {
+					return nil // two writes at the same offset
+				}
+				found = i
+			}
+		}
+		if found < 0 {
+			// an unwritten gap of a few bytes in a fresh buffer is zero bytes
+			for i, pt := range parts {
+				d := pt.off.minus(cur)
+				if !used[i] && len(d.c) == 0 && d.k.IsInt() && d.k.Sign() > 0 && d.k.Cmp(big.NewRat(8, 1)) <= 0 {
+					for z := int64(0); z < d.k.Num().Int64(); z++ {
+						out = append(out, T("u8", "", T("const", "0")))
+					}
+					cur = pt.off
+					found = i
+					break
+				}
+			}
+			if found < 0 {
+				return nil
+			}
+		}
+		used[found] = true
+		out = append(out, parts[found].t)
+		cur = cur.plus(parts[found].ln)
+	}
+	if !eq(cur, total) {
+		return nil
+	}
+	return catTerms(out...)
+}
+
+// linTerm renders a constant linear form as a term (nil if not constant).
+func linTerm(l Lin) *Term {
+	if len(l.c) == 0 && l.k.IsInt() {
+		return T("const", l.k.Num().String())
+	}
+	if len(l.c) == 1 && l.k.Sign() == 0 {
+		for name, c := range l.c {
+			if c.Cmp(big.NewRat(1, 1)) == 0 {
+				return T("linatom", name)
+			}
+		}
+	}
+	return nil
+}
+
+// canonBigBytes: x.FillBytes(make([]byte, (x.BitLen()+7)>>3)) is x.Bytes()
+// (the minimal big-endian encoding), by the documented contract of math/big.
+func canonBigBytes(t *Term) *Term {
+	if t.Op != "make" || len(t.Args) != 2 || t.Args[1].Op != "fill" || t.Args[1].Name != "(*math/big.Int).FillBytes" || len(t.Args[1].Args) != 2 {
+		return t
+	}
+	x := t.Args[1].Args[0]
+	xs := x.String()
+	for _, ln := range []string{
+		"bin<>>>(bin<+>(call<(*math/big.Int).BitLen>(" + xs + "), const:7), const:3)",
+		"bin<>>>(bin<+>(const:7, call<(*math/big.Int).BitLen>(" + xs + ")), const:3)",
+		"bin</>(bin<+>(call<(*math/big.Int).BitLen>(" + xs + "), const:7), const:8)",
+		"bin</>(bin<+>(const:7, call<(*math/big.Int).BitLen>(" + xs + ")), const:8)",
+	} {
+		if t.Args[0].String() == ln {
+			return &Term{Op: "call", Name: "(*math/big.Int).Bytes", Args: []*Term{x}, Src: t.Src}
+		}
+	}
+	return t
 }
